@@ -44,6 +44,9 @@ META = {
         "acceptance of a pure burn / pure deposit is not constrained (the statement names mint, collateral withdrawal, LP withdrawal)",
         "the wallet is kept far from empty, so wallet-side rejections and Asset.sub's dust snap do not occur",
         "an exact tie collateral == payment in the cap rule is not generated",
+        "when 2 % of the redeemed LP value exceeds the vault's ETH (own + redeemed), '2% bounty' and 'never negative' conflict: a bounty "
+        "stopped at the vault's collateral is accepted; the full bounty is accepted by the amounts clause and caught by the non-negativity clause",
+        "after a vault amount has gone negative (reported once, at the step that made it negative) the rest of that case is not evaluated",
     ],
 }
 NSHARDS = 16
@@ -55,7 +58,7 @@ LP_REL = Fraction(1, 10**12)
 
 
 def plan(tier, seed):
-    n = 36 if tier == "quick" else 1500
+    n = 36 if tier == "quick" else 1000
     return [{"shard": i, "cases": n} for i in range(NSHARDS)]
 
 
@@ -191,6 +194,7 @@ class Case:
         self.trace = []
         self.p_op = rng.choice([0.35, 0.6, 0.9])
         self.liq_seen = []
+        self.poisoned = False  # a vault went negative (reported once): the rest of the case is outside the generators' domain
 
     # ------------------------------------------------------------------ plumbing
     def run(self):
@@ -274,6 +278,8 @@ class Case:
     # ------------------------------------------------------------------ per-bar reads
     def after_bar(self, strategy, snap):
         mon = self.mon
+        if self.poisoned:
+            return
         rows = self.tab["WETH"].rows_in_window(self.t)
         for name, tok in (("WETH", self.weth), ("OSQTH", self.osqth)):
             want = self.twap(name)
@@ -332,17 +338,21 @@ class Case:
             self.mon.ev()
             for nm, val in (("collateral", vs.coll), ("short", vs.short)):
                 if val < 0:
+                    self.poisoned = True
                     self.mon.violation("squeeth", where, "negative-vault-amount", nm,
                                        f"vault {vid} {nm} = {float(val)!r} at {self.t} ({self.tag})", {"case": self.c, "bar": self.bar})
 
     # ------------------------------------------------------------------ operations
     def on_bar(self, strategy, snap, phase="on_bar"):
         rng = self.rng
+        if self.poisoned:
+            return
         early = self.bar < 7
         if rng.random() > (0.9 if early and self.bar % 2 == 0 else self.p_op):
             return
         for _ in range(rng.choice([1, 1, 2, 3])):
-            self.one_op(phase)
+            if not self.poisoned:
+                self.one_op(phase)
 
     def pick_ratio(self):
         tot = sum(x[2] for x in RATIOS)
@@ -627,6 +637,7 @@ class Case:
                 mon.violation("squeeth", kind, "other-vault-changed", "", detail_head + f"vault {i} changed too")
         for i, v in post_v.items():
             if v.coll < 0 or v.short < 0:
+                self.poisoned = True
                 mon.violation("squeeth", kind, "negative-vault-amount", "collateral" if v.coll < 0 else "short",
                               detail_head + f"vault {i}: collateral {float(v.coll)!r}, short {float(v.short)!r}")
         if act.short > 0:
@@ -635,6 +646,8 @@ class Case:
     # ------------------------------------------------------------------ bar end
     def update_wrapper(self):
         mon = self.mon
+        if self.poisoned:
+            return self.orig_update()
         pre_v, pre_w = self.read()
         n_act = len(self.actions)
         exc = None
@@ -707,6 +720,8 @@ class Case:
                     for P in (tw_o, nf * tw_e / O.INDEX_SCALE):
                         c1, s1, b, x, bo = O.reduce_debt(vs.coll, vs.short, e, o, P)
                         outs.append({"withdrawn_eth": e, "withdrawn_osqth": o, "burn": b, "excess": x, "bounty": bo, "short_after": s1, "collateral_after": c1})
+                        if c1 < 0:  # 2 % bounty > what the vault holds: the bounty may stop at the vault's collateral
+                            outs.append({"withdrawn_eth": e, "withdrawn_osqth": o, "burn": b, "excess": x, "bounty": bo + c1, "short_after": s1, "collateral_after": Fraction(0)})
                     return outs
 
                 def mism(m):
@@ -782,6 +797,7 @@ class Case:
             if vs.pos is not None and ps.pos is not None:
                 mon.violation("squeeth", "update", "lp-still-in-vault-after-redemption", "", head, data)
             if ps.coll < 0 or ps.short < 0:
+                self.poisoned = True
                 mon.violation("squeeth", "update", "negative-vault-amount", ("collateral" if ps.coll < 0 else "short") + ":after-" + "+".join(stage_kind), head, data)
             sk = "+".join(stage_kind)
             mon.cls(f"liq/{sk}")
